@@ -36,7 +36,7 @@ EXTENDS Integers, Sequences, FiniteSets, TLC, Json
 
 CONSTANTS PlanName, \* which set of scenario blocks Init enumerates (see Plan); "custom" = the one block given by the next six
           Budget,   \* pulls allowed before the counting iterator raises
-          Cfgs,     \* scheduler configurations explored: "default","cts","imm","src_cts","src_imm","vts"
+          Cfgs,     \* scheduler configurations explored: "default","cts","imm","src_cts","src_imm","vts","sing","src_sing","imm_src_sing"
           Ctxs,     \* "top": subscribe() called with the trampoline idle; "act": from inside a running trampoline action
           Fams,     \* families of shapes explored (see Fam)
           TakeNs,   \* counts for the early-terminating consumer
@@ -105,16 +105,19 @@ BlkD(bud, cfgs, ctxs, fams, ns, oth, dsps) == [bud |-> bud, cfgs |-> cfgs, ctxs 
 Blk(bud, cfgs, ctxs, fams, ns, oth) == BlkD(bud, cfgs, ctxs, fams, ns, oth, {0})
 Plan(p) ==
   CASE p = "quick" ->
-         { Blk(8, {"default", "cts", "imm"}, {"top"}, {"direct", "elem", "tu", "share", "repeat"}, {1, 2}, {"one"}),
-           Blk(6, {"default", "imm"}, {"top"}, {"comb", "ho", "comb3"}, {2}, {"one", "sync"}),
+         { Blk(8, {"default", "cts", "imm", "sing"}, {"top"}, {"direct", "elem", "tu", "share", "repeat"}, {1, 2}, {"one"}),
+           Blk(6, {"default", "imm", "sing"}, {"top"}, {"comb", "ho", "comb3"}, {2}, {"one", "sync"}),
+           Blk(6, {"src_sing", "imm_src_sing"}, {"top"}, {"direct", "elem", "comb"}, {2}, {"one"}),
            Blk(6, {"default", "cts", "src_cts", "src_imm"}, {"act"}, {"direct", "comb", "ho", "tu"}, {2}, {"one"}),
            Blk(6, {"default"}, {"top"}, {"inner", "comb2", "ho2", "tu"}, {2}, {"one", "sync"}),
            Blk(6, {"vts"}, {"top"}, {"direct", "comb", "ho", "tu"}, {2}, {"one"}),
            BlkD(6, {"default", "vts"}, {"act"}, {"bare"}, {1}, {"one"}, {2}) }
     [] p = "thorough" ->
-         { Blk(24, {"default", "cts", "imm", "src_cts", "src_imm"}, {"top", "act"}, {"direct", "elem", "tu", "share", "repeat"},
+         { Blk(24, {"default", "cts", "imm", "src_cts", "src_imm", "sing", "src_sing", "imm_src_sing"}, {"top", "act"},
+               {"direct", "elem", "tu", "share", "repeat"},
                {1, 2, 3, 5}, {"one", "never", "empty", "sync"}),
-           Blk(16, {"default", "cts", "imm"}, {"top", "act"}, {"comb", "ho", "comb3"}, {1, 3}, {"one", "never", "empty", "sync"}),
+           Blk(16, {"default", "cts", "imm", "sing"}, {"top", "act"}, {"comb", "ho", "comb3"}, {1, 3}, {"one", "never", "empty", "sync"}),
+           Blk(12, {"src_sing", "imm_src_sing"}, {"top", "act"}, {"comb", "ho", "comb3", "inner"}, {2}, {"one", "sync"}),
            Blk(16, {"src_cts", "src_imm"}, {"top", "act"}, {"comb", "ho", "inner"}, {2}, {"one"}),
            Blk(16, {"default", "cts", "imm"}, {"top"}, {"inner", "comb2", "ho2"}, {1, 3}, {"one", "empty", "sync"}),
            Blk(12, {"default", "imm"}, {"top", "act"}, {"deep"}, {2}, {"one", "sync"}),
@@ -166,6 +169,11 @@ SchedOf(k) == CASE cfg = "default" -> "S"
                 [] cfg = "cts"     -> "X"
                 [] cfg = "imm"     -> "I"
                 [] cfg = "vts"     -> "V"
+                \* the thread-singleton CurrentThreadScheduler passed explicitly (to subscribe / to the source factory) is
+                \* the very scheduler everything defaults to: these configurations must behave exactly like "default"
+                [] cfg \in {"sing", "src_sing"} -> "S"
+                \* ... also when everything else is told to use the ImmediateScheduler
+                [] cfg = "imm_src_sing" -> IF k \in Inf THEN "S" ELSE "I"
                 [] cfg = "src_cts" -> IF k \in Inf THEN "X" ELSE "S"
                 [] cfg = "src_imm" -> IF k \in Inf THEN "I" ELSE "S"
                 [] OTHER           -> "S"
@@ -195,7 +203,7 @@ Core(st, e) ==
   CASE k = "loop"    -> Sched(st, t, F("loopiter", e, 0), <<>>)
     [] k = "resched" -> Sched(st, t, F("ract", e, 0), <<>>)
     [] k = "one"     -> Sched(st, t, F("oneact", e, 0), <<>>)
-    [] k = "empty"   -> Sched(st, IF cfg = "cts" THEN "X" ELSE IF cfg = "vts" THEN "V" ELSE "I", F("emptyact", e, 0), <<>>)  \* empty() defaults to ImmediateScheduler
+    [] k = "empty"   -> Sched(st, IF cfg = "cts" THEN "X" ELSE IF cfg = "vts" THEN "V" ELSE IF cfg = "sing" THEN "S" ELSE "I", F("emptyact", e, 0), <<>>)  \* empty() defaults to ImmediateScheduler
     [] k = "never"   -> Pop(st)
     [] k = "sync"    -> Push(st, <<F("next", e, 0), F("done", e, 0)>>)       \* emits inside its subscribe function, no scheduler
     [] k = "chaos"   -> Push(st, <<F("chaos", e, 1)>>)
@@ -568,7 +576,7 @@ Strip(i) == IF nd[i].k \in {"map", "defer"} THEN Strip(nd[i].a) ELSE i
 \* r = the node that terminates the pipeline early, c = what it consumes (element-wise layers skipped)
 TwoLeaves(c) == nd[Strip(nd[c].a)].k \in Inf \cup blk.oth /\ nd[Strip(nd[c].b)].k \in Inf \cup blk.oth
 RefKnown ==   \* shapes for which the reference below is stated
-  /\ cfg \in {"default", "vts"} /\ ctx = "top" /\ g.dsp = 0      \* a virtual-time scheduler runs the same queue order, later
+  /\ cfg \in {"default", "vts", "sing", "src_sing"} /\ ctx = "top" /\ g.dsp = 0      \* a virtual-time scheduler runs the same queue order, later
   /\ LET r == Strip(1) IN
        \/ nd[r].k = "takeuntil" /\ TwoLeaves(r)
        \/ nd[r].k = "take" /\ LET c == Strip(nd[r].a) IN
@@ -594,7 +602,7 @@ RefOK == (Terminal /\ RefKnown /\ Applicable /\ blk.oth \subseteq {"one", "resch
 
 \* C14 itself, for the part of the design where the wiring does deliver it: one element per scheduled
 \* action always yields to the trampoline, so without loop producers every listed shape returns
-BoundedResched == (Terminal /\ cfg \in {"default", "vts"} /\ ~HasKind(nd, "loop") /\ Applicable) => ~s.exhausted
+BoundedResched == (Terminal /\ cfg \in {"default", "vts", "sing", "src_sing"} /\ ~HasKind(nd, "loop") /\ Applicable) => ~s.exhausted
 \* C14 for everything (violated by the design for the shapes exported with returned = FALSE;
 \* used with one scenario at a time to print the missing cancellation path)
 Bounded == (Terminal /\ Applicable) => ~s.exhausted
